@@ -222,12 +222,52 @@ def int_boundary(r, crate):
     hi = lex.helper_inline(crate)
     inl = lambda a, b: b.file.endswith("number.rs") or hi(a, b)
     n = 0
+    # the parameters by type: the magnitude (u64), the radix (a smaller unsigned integer, if any), the sign (a bool or
+    # a private two-variant enum); which sign value means "positive" is read off the function itself on the literal 5
+    tys = {i: f.local_ty(i) for i in range(2, f.arg_count + 1)}
+    mag_i = [i for i, t in tys.items() if t == "u64"]
+    rad_i = [i for i, t in tys.items() if t in ("u32", "u8", "u16", "usize")]
+    sign_i, sign_vals = None, None
+    for i, t in tys.items():
+        if t == "bool":
+            sign_i, sign_vals = i, [1, 0]
+        elif t in crate.adts and crate.adts[t]["kind"] == "enum" and len(crate.adts[t]["variants"]) == 2 \
+                and all(not v["fields"] for v in crate.adts[t]["variants"]):
+            sign_i, sign_vals = i, [Adt(t, v["idx"], [], v["name"]) for v in crate.adts[t]["variants"]]
+    if len(mag_i) != 1 or sign_i is None or len(rad_i) > 1:
+        r.anchor_missing("parse_num_tail(radix, sign, magnitude: u64) (parameter types %s)" % sorted(tys.values()))
+        return
+
+    def run_tail(sv, mag):
+        a = {mag_i[0]: mag, sign_i: sv}
+        if rad_i:
+            a[rad_i[0]] = 10
+        S = sim.Sim([crate], hooks={"call": lex.seq_hook([0x20])}, inline=inl, max_paths=2000)
+        return S.run(f, args=a)
+
+    def outcome(paths):
+        outs = set()
+        for p in paths:
+            v = p.ret
+            if p.end == "return" and isinstance(v, Adt) and v.variant == 0 and isinstance(v.fields[0], Adt) \
+                    and v.fields[0].fields and isinstance(v.fields[0].fields[0], Adt):
+                nn = v.fields[0].fields[0]
+                outs.add((nn.variant, nn.fields[0] if nn.fields and isinstance(nn.fields[0], int) else None))
+            else:
+                outs.add(("?", p.end))
+        return outs
+
+    pos_v = [sv for sv in sign_vals if outcome(run_tail(sv, 5)) == {(nv["PosInt"], 5)}]
+    neg_v = [sv for sv in sign_vals if outcome(run_tail(sv, 5)) == {(nv["NegInt"], -5)}]
+    if len(pos_v) != 1 or len(neg_v) != 1:
+        r.violation(f.path, "int-boundary:5", "the literals 5 and -5 are not stored as PosInt(5) / NegInt(-5): %s" % [
+            sorted(outcome(run_tail(sv, 5)), key=repr) for sv in sign_vals], f.loc())
+        return
     for mag in (0, 1, (1 << 63) - 1, 1 << 63, (1 << 63) + 1, (1 << 64) - 1):
         for pos in (1, 0):
             n += 1
-            S = sim.Sim([crate], hooks={"call": lex.seq_hook([0x20])}, inline=inl, max_paths=2000)
             outs = set()
-            for p in S.run(f, args={2: 10, 3: pos, 4: mag}):
+            for p in run_tail(pos_v[0] if pos else neg_v[0], mag):
                 v = p.ret
                 if p.end == "return" and isinstance(v, Adt) and v.variant == 0 and isinstance(v.fields[0], Adt) \
                         and v.fields[0].fields and isinstance(v.fields[0].fields[0], Adt):
